@@ -86,6 +86,14 @@ Theorem C15_roundtrip_partial : forall S : list (ref * root),
 Proof. exact export_import_roundtrip. Qed.
 Print Assumptions C15_roundtrip_partial.
 
+Theorem C15_inline_objects_and_oneofs_not_importable :
+  (forall fl rules ext, (exists c, import_field (XObject XInline fl rules ext) = RErr c) /\
+                        (exists c, import_field (XObject XUnset fl rules ext) = RErr c)) /\
+  (forall rules lr ext, (exists c, import_field (XOneof XInline rules lr ext) = RErr c) /\
+                        (exists c, import_field (XOneof XUnset rules lr ext) = RErr c)).
+Proof. exact import_inline_rejected_all. Qed.
+Print Assumptions C15_inline_objects_and_oneofs_not_importable.
+
 (* ---- the conclusion of the full statement over the flat list of exported schemas ([export_set]), for
    EVERY descriptor set: no hypothesis (the former hypothesis wf_keys, distinct split names, is gone: what
    the round trip needs of a reflected set, distinct keys, no placeholder, importable scalar formats,
